@@ -28,8 +28,16 @@ static long amount(long long b, long want)
 {
     switch (b) { case 1: return 1; case 2: return want < 2 ? want : 2; case 3: return (want + 1) / 2; default: return want; }
 }
-static long long next_s(SrcD *s) { return s->is < s->nss ? s->ss[s->is++] : 4; }
-static long long next_k(SnkD *k) { return k->ik < k->nks ? k->ks[k->ik++] : 4; }
+/* behaviour 9 in a script: three hundred interruptions in a row */
+static long long run9(const long long *sc, int *idx, long *rep)
+{
+    if (++*rep < 300) return -EINTR;
+    *rep = 0; (*idx)++;
+    return -EINTR;
+}
+static long rep_s, rep_k;
+static long long next_s(SrcD *s) { if (s->is < s->nss && s->ss[s->is] == 9) return run9(s->ss, &s->is, &rep_s); return s->is < s->nss ? s->ss[s->is++] : 4; }
+static long long next_k(SnkD *k) { if (k->ik < k->nks && k->ks[k->ik] == 9) return run9(k->ks, &k->ik, &rep_k); return k->ik < k->nks ? k->ks[k->ik++] : 4; }
 
 static ssize_t src_chunk(void *drv, void *buf, size_t n)
 {
@@ -125,6 +133,7 @@ void adapter_exec(Ev *ev)
     }
     static SrcD s; static SnkD k;
     memset(&s, 0, sizeof s); memset(&k, 0, sizeof k);
+    rep_s = rep_k = 0;
     int sk = (int)ev->a[0], kk = (int)ev->a[1];
     long n = (long)ev->a[2];
     s.L = (long)ev->a[3];
